@@ -328,6 +328,11 @@ class Front:
         if e.has(sympy.conjugate):
             # symbols are real unknowns: conjugate(sym) == sym
             e = e.xreplace({sympy.conjugate(x): x for x in e.free_symbols})
+        if e.has(sympy.im) or e.has(sympy.re):
+            # ... hence im(sym) == 0 and re(sym) == sym (sympy produces them when it rewrites Abs(exp(I*sym)))
+            rep = {sympy.im(x): sympy.Integer(0) for x in e.free_symbols}
+            rep.update({sympy.re(x): x for x in e.free_symbols})
+            e = e.xreplace(rep)
         key = e
         if key in self.cache:
             return self.cache[key]
